@@ -155,31 +155,33 @@ def run(prog, rep):
     WRITERS = {"sscanf": None, "__isoc99_sscanf": None, "fgets": (0,), "memset": (0,), "strcpy": (0,), "strncpy": (0,), "memcpy": (0,), "snprintf": (0,), "sprintf": (0,),
                "__builtin___memset_chk": (0,), "__builtin___strcpy_chk": (0,), "__builtin___memcpy_chk": (0,), "__builtin_memset": (0,), "__builtin_memcpy": (0,), "__builtin_strcpy": (0,)}
     nterm = 0
-    for fn_ in sorted(u.functions.values(), key=lambda f: f.loc[0]):
+    for fr_ in sorted(u.functions.values(), key=lambda f: f.loc[0]):
+        fn_ = fr_.inlined()             # a flush helper that terminates and copies the token is part of the function that owns the array
         arrs = set()
-        for (b, i, n) in fn_.nodes(elsewhere=True):
-            if n["k"] == "asg" and strip_casts(n["l"])["k"] == "idx":
-                base = strip_casts(strip_casts(n["l"])["base"])
-                if base is not None and base["k"] == "ref" and base.get("decl") == "local" and arr_size(fn_, base["name"]) and cv(n["r"]) is None:
+        for A0 in set(n["name"] for (b, i, n) in fn_.nodes(elsewhere=True) if n["k"] == "decl" and arr_size(fn_, n["name"])):
+            held = fn_.copies_of(A0)
+            for (b, i, n) in fn_.nodes(elsewhere=True):
+                if n["k"] == "asg" and strip_casts(n["l"])["k"] == "idx" and root_var(n["l"]) in held and cv(n["r"]) is None:
                     t_ = u.type_of(strip_casts(n["l"]))
                     if t_ and t_.get("k") == "int" and t_.get("w") == 8:
-                        arrs.add(base["name"])
+                        arrs.add(A0)
         for A in sorted(arrs):
             unterminated = []
+            held = fn_.copies_of(A)
 
-            def ts(st, b, i, stmt, A=A, unterminated=unterminated):
+            def ts(st, b, i, stmt, A=A, unterminated=unterminated, held=held):
                 facts, clean = st
                 for n in walk(stmt):
                     if n["k"] == "call":
                         for ai, a in enumerate(n.get("args", ())):
                             a2 = strip_casts(a)
-                            if a2 is not None and a2["k"] == "ref" and a2["name"] == A:
+                            if a2 is not None and a2["k"] == "ref" and a2["name"] in held:
                                 w = WRITERS.get(n.get("callee"), ())
                                 if n.get("callee") in WRITERS and (w is None or ai in w):
                                     clean = True
                                 elif not clean:
                                     unterminated.append((line(n), n.get("callee")))
-                    if n["k"] == "asg" and strip_casts(n["l"])["k"] == "idx" and root_var(n["l"]) == A:
+                    if n["k"] == "asg" and strip_casts(n["l"])["k"] == "idx" and root_var(n["l"]) in held:
                         clean = cv(n["r"]) == 0
                 return [(guards.transfer(facts, stmt), clean)]
 
@@ -188,9 +190,9 @@ def run(prog, rep):
                 return None if f2 is None else (f2, st[1])
             Flow(fn_, [(guards.EMPTY, False)], ts, te, max_states=20000).run()
             nterm += 1
-            rep.ob("C16.1", fn_, "terminated:" + A, not unterminated, "%s is handed on as a string only after a zero byte was stored behind the last byte written into it" % A if not unterminated else
+            rep.ob("C16.1", fr_, "terminated:" + A, not unterminated, "%s is handed on as a string only after a zero byte was stored behind the last byte written into it" % A if not unterminated else
                    "line %d: %s is read as a string by %s on a path where the last store into it was a data byte: without the terminating zero the element continues with whatever an "
-                   "earlier, longer element left in the buffer" % (unterminated[0][0], A, unterminated[0][1]), unterminated[0][0] if unterminated else fn_.loc[0])
+                   "earlier, longer element left in the buffer" % (unterminated[0][0], A, unterminated[0][1]), unterminated[0][0] if unterminated else fr_.loc[0])
     rep.floor("C16.1", 8 + 1)
 
     # ---- C16.2 -----------------------------------------------------------------------------
@@ -569,7 +571,17 @@ def run(prog, rep):
                 e_ = strip_casts(a[side])
                 if e_ is not None and e_["k"] == "ref" and e_["name"] != linebuf:
                     shiftv = e_["name"]
+    judged = False
     if shiftv is not None:
+        lnames = sorted(ps.copies_of(linebuf))          # the buffer and the pointer locals that hold its address (helper parameters, typed views)
+
+        def byte_at(st, j):
+            for nm in lnames:
+                v = guards.lookup(st, "%s[%d]" % (nm, j))
+                if v is not None:
+                    return v
+            return None
+
         def bom_run(assumed):
             arrivals = []
 
@@ -581,25 +593,40 @@ def run(prog, rep):
                 return [guards.transfer(st, stmt)]
 
             def be(st, b, to, on):
-                f2 = guards.edge_assume(st, b, on)
-                if f2 is not None and assumed and on == "true" and b.cond is not None and any(c.get("callee") == "fgets" for c in calls(b.cond)):
-                    for k_, v_ in enumerate(assumed):
-                        if v_ is not None and f2 is not None:
-                            f2 = guards.add_fact(f2, "%s[%d]" % (linebuf, k_), "==", v_)
-                return f2
+                if assumed:
+                    # the assumed line start holds for the buffer under every name it goes by
+                    for nm in lnames:
+                        for k_, v_ in enumerate(assumed):
+                            if v_ is not None and st is not None and guards.lookup(st, "%s[%d]" % (nm, k_)) is None:
+                                st = guards.add_fact(st, "%s[%d]" % (nm, k_), "==", v_) or st
+                return guards.edge_assume(st, b, on)
             Flow(ps, [guards.EMPTY], bs, be, max_states=6000).run()
             return arrivals
         arr = bom_run(None)
+        judged = bool(arr) and all(k_ is not None for (k_, st_, ln_) in arr) and any(k_ for (k_, st_, ln_) in arr)
+        # the form this clause reads: the buffer's bytes are looked at only in comparisons of one byte with a constant (a word packed
+        # from four bytes, or a library comparison against a table, is another form and is not judged)
+        compared = set()
+        for (b_, i_, n_) in ps.nodes(elsewhere=True):
+            if n_["k"] == "bin" and n_["op"] in ("==", "!="):
+                for s_, o_ in (("l", "r"), ("r", "l")):
+                    e_ = strip_casts(n_[s_])
+                    if e_ is not None and e_["k"] == "idx" and cv(n_[o_]) is not None and cv(e_["i"]) is not None:
+                        compared.add(id(e_))
+        for (b_, i_, n_) in ps.nodes(elsewhere=True):
+            if n_["k"] == "idx" and root_var(n_) in lnames and id(n_) not in compared:
+                judged = False
+    if shiftv is not None and not judged:
+        rep.note("C16.8 mark table: the number of skipped bytes is not decided by byte tests with constant results in this form (table-driven or library comparison): not judged")
+    if judged:
         bad = None
         for (k_, st_, ln_) in arr:
-            if k_ is None:
-                bad = (ln_, "the number of bytes skipped in front of the line is not a constant on a path")
-            elif k_ > 0 and not any(len(P) == k_ and all(guards.lookup(st_, "%s[%d]" % (linebuf, j)) == P[j] for j in range(k_)) for P in BOMS):
-                known = ["%s[%d]==0x%02X" % (linebuf, j, guards.lookup(st_, "%s[%d]" % (linebuf, j))) for j in range(4) if guards.lookup(st_, "%s[%d]" % (linebuf, j)) is not None]
+            if k_ > 0 and not any(len(P) == k_ and all(byte_at(st_, j) == P[j] for j in range(k_)) for P in BOMS):
+                known = ["byte %d == 0x%02X" % (j, byte_at(st_, j)) for j in range(4) if byte_at(st_, j) is not None]
                 bad = (ln_, "%d bytes are skipped in front of a line of which only %s is known: that is no %d-byte byte-order mark, the first characters of an ordinary line are cut off" % (
                     k_, ", ".join(known) or "nothing", k_))
-        rep.ob("C16.8", ps, "bom:only-marks", bool(arr) and bad is None, "bytes are skipped in front of a line only after the tests for a whole standard byte-order mark of that length succeeded"
-               if (arr and bad is None) else (("line %d: %s" % bad) if bad else "the trim call was not reached"), bad[0] if bad else ps.loc[0])
+        rep.ob("C16.8", ps, "bom:only-marks", bad is None, "bytes are skipped in front of a line only after the tests for a whole standard byte-order mark of that length succeeded"
+               if bad is None else ("line %d: %s" % bad), bad[0] if bad else ps.loc[0])
         for P in BOMS[:4]:
             assumed = list(P) + ([None] * (4 - len(P)))
             if len(P) == 2:
@@ -614,7 +641,7 @@ def run(prog, rep):
         wrong = [(k_, ln_) for (k_, st_, ln_) in arr if k_ != 0]
         rep.ob("C16.8", ps, "bom:none", bool(arr) and not wrong, "a line starting with '[' is trimmed from byte 0" if (arr and not wrong) else
                ("line %d: a header line without any mark loses its first %s bytes" % (wrong[0][1], wrong[0][0]) if wrong else "the trim call was not reached"), wrong[0][1] if wrong else ps.loc[0])
-    rep.floor("C16.8", 1 + (6 if shiftv is not None else 0))
+    rep.floor("C16.8", 1 + (6 if judged else 0))
 
     # ---- C16.7 -----------------------------------------------------------------------------
     rep.rule("C16.7", "value pipeline: what the parse loop stores is the trimmed text - a section name and a key/value pair reach their constructors only as copies of "
